@@ -35,6 +35,28 @@ CHECKS = {
                 "net.Pipe as connection. TCP urgent data/deadlines not modelled. No axioms.",
         "technique": "Coq proof (all-segmentations theorem by induction over scanner runs; staged-read refinement) + differential correspondence check over scripted segmentations",
     },
+    "C03": {
+        "text": "PARTIAL by nature (scheduling, timeliness and memory are the runtime's). Model Srv/Contain.v: the resource bracket of a "
+                "connection - registry entry, connected counter, claimed transfer entry, in-progress counters - acquired in order, each "
+                "followed by a deferred release, recovery installed first. Theorems (Props/C03.v): control_bracket_restores (for EVERY "
+                "body effect that respects the connection's own bracket and EVERY ending - return, error, recovered panic - the "
+                "registry no longer holds the connection, the counters are back, the process is alive), "
+                "rejected_connection_leaves_no_trace, transfer_bracket_restores; and, over Gen/Structure.v REGENERATED from the sources: "
+                "recover_first (both connection handlers start with defer dontPanic), acquisitions_are_bracketed (ClientMgr.Add / "
+                "Disconnect, Stats Increment / Decrement for the connection and the four transfer kinds, FileTransferMgr Get / "
+                "Delete: the deferred release follows the acquisition directly), shared_maps_locked (every index expression on a map "
+                "field of Server outside the registration table is under a mutex), goroutines_are_the_known_ones. Correspondence / "
+                "search: a child process runs the REAL Serve and ServeFileTransfers on loopback listeners with a logged-in sentinel; "
+                "3-10 batches of 48-160 concurrent hostile connections from distinct 127.x.y.z sources (pre-login garbage, truncated "
+                "and corrupted handshakes / logins, post-login transactions of 51 types with random fields and corrupted length "
+                "fields, count-amplification paths, transfer-port garbage, claimed transfers broken off, uploads declaring up to "
+                "1 MiB); observed: exit status of the process, every sentinel probe answered within 2 s, registry and the three "
+                "counters at quiescence.",
+        "note": "Two defects found and repaired: unlocked rate-limiter map aborts the process (01776e6), path item-count amplification "
+                "keeps a handler spinning for a minute (c1db222). What no model here exhibits: fairness, memory exhaustion, blocked "
+                "writers. No axioms.",
+        "technique": "Coq proof of the connection resource bracket + translator-checked structural obligations + hostile-traffic runs against the real accept loops",
+    },
     "C04": {
         "text": "Model Auth/Door.v: what handleNewConnection does with the byte string of a new connection (12-byte handshake, ban verdict, "
                 "first scanner token, Transaction.Write, de-obfuscated login with guest fallback, bcrypt abstracted to its 72 key bytes, "
